@@ -149,7 +149,7 @@ def cases(draw, switches):
             feats.add("read_with_ten_or_more_targets")
         for _ in range(nd_lines):
             items = []
-            for _ in range(d(st.integers(1, 4)) if not wide else d(st.integers(10, 14))):
+            for _ in range(d(st.integers(1, 4)) if not wide else d(st.sampled_from([10, 12, 14, 14, 44, 60]))):  # up to 60 items: 200-300 characters of DATA text
                 r = d(st.integers(0, 11))
                 if r < 4:
                     sp, v = d(st.sampled_from(cbgen.NUM_SPELLINGS))
